@@ -626,3 +626,142 @@ Proof.
   exfalso. rewrite Rabs_R1, lit15 in H. rewrite (Rabs_right 2) in H by lra.
   replace (2 - 1) with 1 in H by ring. rewrite Rabs_R1 in H. lra.
 Qed.
+
+(* ------------------------------------------------------------------ celv (vectorised cel): masked do-while *)
+Lemma agm_step_le (g q t : R) : 0 < q -> q <= g -> 0 <= t -> g * (t * t) <= q ->
+  (g + q) * t <= 2 * sqrt (g * q).
+Proof.
+  intros Hq Hqg Ht Hr.
+  assert (Hg : 0 < g) by lra.
+  assert (Hgq : 0 < g * q) by (apply Rmult_lt_0_compat; lra).
+  pose proof (sqrt_lt_R0 _ Hgq) as Hs.
+  pose proof (sqrt_sqrt (g * q) (Rlt_le _ _ Hgq)) as Hss.
+  set (s := sqrt (g * q)) in *. clearbody s.
+  destruct (Rle_or_lt ((g + q) * t) (2 * s)) as [|Hc]; auto. exfalso.
+  assert (H1 : (2 * s) * (2 * s) < ((g + q) * t) * ((g + q) * t)) by (apply Rmult_le_0_lt_compat; lra).
+  assert (H2 : (g + q) * (g + q) <= (2 * g) * (2 * g)) by (apply Rmult_le_compat; lra).
+  assert (H3 : 0 <= t * t) by apply Rle_0_sqr.
+  assert (H4 : ((g + q) * t) * ((g + q) * t) <= (2 * g) * (2 * g) * (t * t)).
+  { replace (((g + q) * t) * ((g + q) * t)) with ((g + q) * (g + q) * (t * t)) by ring.
+    apply Rmult_le_compat_r; auto. }
+  assert (H5 : 4 * g * (g * (t * t)) <= 4 * g * q) by (apply Rmult_le_compat_l; lra).
+  nra.
+Qed.
+
+(* same invariant as for cel0, with a non-strict ratio bound (a row that has passed the test keeps it) *)
+Definition inv_celv (N : nat) (st : st7R) : Prop :=
+  let '(k, kk, cc, ss, pp, g, em) := st in
+  0 < k /\ k <= g /\ 0 < pp /\ em = g + k /\ kk = g * k /\ g * thr theta6 N <= k.
+
+Lemma inv_cel_celv N s : inv_cel N s -> inv_celv N s.
+Proof. destruct s as [[[[[[k kk] cc] ss] pp] g] em]. intros (A & B & C & D & E & F). repeat split; auto. lra. Qed.
+
+Lemma thr_le_theta theta N : 0 < theta <= 1 -> thr theta N <= theta.
+Proof.
+  intros H. replace theta with (thr theta 0) at 2 by (unfold thr; simpl; ring).
+  apply thr_mono_le; auto. lia.
+Qed.
+
+Lemma celv_exit_iff (k g e : R) : e = / 1000000 -> 0 < k -> k <= g ->
+  (Rltb (g * e) (Rabs (g - k)) = false <-> g * theta6 <= k).
+Proof.
+  intros -> Hk Hkg. rewrite Rabs_right by lra. unfold theta6, Rltb.
+  destruct (Rlt_dec (g * / 1000000) (g - k)); split; intros; try discriminate; auto; lra.
+Qed.
+
+Lemma celv_B0 s : inv_celv 0 s -> celv_cond NumR s = false.
+Proof.
+  destruct s as [[[[[[k kk] cc] ss] pp] g] em]. intros (Hq & Hqg & Hp & He & Hk & Hr).
+  unfold celv_cond. simpl. apply (celv_exit_iff k g _ lit6 Hq Hqg).
+  unfold thr in Hr. simpl in Hr. lra.
+Qed.
+
+Lemma celv_BS N s : inv_celv (S N) s -> inv_celv N (celv_step NumR s).
+Proof.
+  destruct s as [[[[[[k kk] cc] ss] pp] g] em]. intros (Hq & Hqg & Hp & He & Hk & Hr).
+  unfold celv_step, inv_celv. simpl. subst em kk.
+  rewrite thr_S in Hr.
+  pose proof (thr_pos theta6 N (proj1 theta6_range)) as Ht.
+  pose proof (agm_step_le g k (thr theta6 N) Hq Hqg (Rlt_le _ _ Ht) Hr) as H4.
+  assert (Hgk : 0 < g * k) by (apply Rmult_lt_0_compat; lra).
+  pose proof (sqrt_lt_R0 _ Hgk) as Hs.
+  destruct (agm_step g k 0 Hq Hqg (Rle_refl 0)) as (_ & H2 & _); [lra|].
+  assert (0 < 2 * sqrt (g * k) * (g + k) / pp).
+  { unfold Rdiv. apply Rmult_lt_0_compat; [apply Rmult_lt_0_compat; lra|apply Rinv_0_lt_compat; auto]. }
+  repeat split; auto; try lra; try ring.
+Qed.
+
+Lemma celv_masked_BS N s : inv_celv (S N) s -> inv_celv N (celv_masked_step NumR s).
+Proof.
+  intros H. unfold celv_masked_step. destruct (celv_cond NumR s) eqn:Hc.
+  - apply celv_BS; auto.
+  - destruct s as [[[[[[k kk] cc] ss] pp] g] em]. destruct H as (Hq & Hqg & Hp & He & Hk & Hr).
+    unfold celv_cond in Hc. simpl in Hc. apply (celv_exit_iff k g _ lit6 Hq Hqg) in Hc.
+    repeat split; auto. pose proof (thr_le_theta theta6 N theta6_range). assert (0 < g) by lra. nra.
+Qed.
+
+Definition cel_row_ok (N : nat) (r : R * R * R * R) : Prop :=
+  let '(kc, _, _, _) := r in kc <> 0 /\ Rabs kc <= 1 /\ thr theta6 N < Rabs kc.
+
+Lemma celv_init_inv N (r : R * R * R * R) : cel_row_ok N r ->
+  inv_cel N (let '(kc, p, c, s) := r in cel_init NumR (lleb NumR p (c0 NumR)) kc p c s).
+Proof.
+  destruct r as [[[kc p] c] s]. intros (Hk & Hk1 & Hr).
+  apply cel_init_inv; auto; unfold c0; simpl; intros Hb.
+  - unfold Rleb in Hb. destruct (Rle_dec _ _) as [|Hn]; [discriminate|]. apply Rnot_le_lt in Hn. exact Hn.
+  - apply Rleb_true_iff in Hb. exact Hb.
+Qed.
+
+Theorem celv_terminates : forall (N : nat) (rows : list (R * R * R * R)),
+  Forall (cel_row_ok (S N)) rows ->
+  exists n v, (n <= S N)%nat /\ celv NumR (S N) rows = Done n v /\ length v = length rows.
+Proof.
+  intros N rows H. unfold celv.
+  match goal with |- context [existsb ?f rows] => assert (Hz : existsb f rows = false) end.
+  { apply existsb_false_Forall. eapply Forall_impl; [|exact H].
+    intros [[[kc p] c] s] (Hk & _). simpl. apply Reqb_false_iff. exact Hk. }
+  rewrite Hz, andb_false_r.
+  destruct rows as [|r0 rows'].
+  - exists 0%nat, []. repeat split; auto. lia.
+  - match goal with |- context [while_loop ?c ?f N 1 ?st] =>
+      destruct (while_terminates _ c f (fun n => Forall (inv_celv n))) with (N := N) (n0 := 1%nat) (s := st)
+        as [k [Hk [Hw _]]] end.
+    + intros s Hs. apply existsb_false_Forall. eapply Forall_impl; [|exact Hs]. apply celv_B0.
+    + intros n s Hs. apply Forall_map'. eapply Forall_impl; [|exact Hs]. apply celv_masked_BS.
+    + apply Forall_map'. apply Forall_map'. eapply Forall_impl; [|exact H].
+      intros r Hr. apply celv_BS. apply inv_cel_celv. apply (celv_init_inv (S N) r Hr).
+    + rewrite Hw. simpl. do 2 eexists. split; [|split; [reflexivity|]]; [lia|].
+      rewrite map_length.
+      assert (L : forall j (l : list (celv_state NumR)), length (Nat.iter j (map (celv_masked_step NumR)) l) = length l).
+      { induction j; intros l; simpl; auto. rewrite map_length. auto. }
+      rewrite L. simpl. rewrite !map_length. reflexivity.
+Qed.
+
+(* the dispatcher cel: scalar loop below the threshold of the current source, vector loop above; some fuel suffices *)
+Theorem cel_terminates : forall rows : list (R * R * R * R),
+  Forall (fun r => let '(kc, _, _, _) := r in kc <> 0 /\ Rabs kc <= 1) rows ->
+  exists N n v, cel NumR N rows = Done n v.
+Proof.
+  intros rows H.
+  assert (HN : exists N, Forall (cel_row_ok (S N)) rows).
+  { induction H as [|r l Hr _ [N IH]].
+    - exists 0%nat. constructor.
+    - destruct r as [[[kc p] c] s]. destruct Hr as [Hk Hk1].
+      destruct (thr_half_small (Rabs kc)) as [k Hkk]; [apply Rabs_pos_lt; auto|].
+      exists (Nat.max N (20 + k)). constructor.
+      + repeat split; auto.
+        eapply Rle_lt_trans; [apply (thr_mono_le theta6 (20 + k)); [apply theta6_range|lia]|].
+        pose proof (thr_theta6_20 k). lra.
+      + eapply Forall_impl; [|exact IH]. intros [[[kc' p'] c'] s'] (A & B & C). repeat split; auto.
+        eapply Rle_lt_trans; [apply (thr_mono_le theta6 (S N)); [apply theta6_range|lia]|]. exact C. }
+  destruct HN as [N HN]. exists (S N). unfold cel.
+  destruct (celv_terminates N rows HN) as [n [v [_ [Hv _]]]].
+  match goal with |- context [res_all ?l] => assert (Hall : exists m vs, res_all l = Done m vs) end.
+  { apply res_all_done. apply Forall_map'. eapply Forall_impl; [|exact HN].
+    intros [[[kc p] c] s] (A & B & C).
+    destruct (cel0_terminates_lemma (S N) kc p c s A B C) as [a [b [_ E]]]. eauto. }
+  destruct Hall as [m [vs Hm]].
+  destruct (Nat.ltb _ _).
+  - rewrite Hm. destruct cel_small_returns; eauto.
+  - eauto.
+Qed.
